@@ -3,7 +3,7 @@
 use crate::cfg::{config_strategy, CfgSpace, Config, Kind};
 use crate::dynres::SampleX;
 use crate::engine::{Aggregate, Outcome, Property, Tier};
-use crate::hist::{call_cost, exec_history, ops_strategy, HistOpts, Op, OpSpace, Path, StepRes, Trace};
+use crate::hist::{call_cost, ops_strategy, HistOpts, Op, OpSpace, Path, StepRes, Trace};
 use crate::model::FftModel;
 use crate::signal::Signal;
 use proptest::prelude::*;
@@ -16,6 +16,9 @@ pub struct HistCase {
     pub ops: Vec<Op>,
     /// false only in known-finding replays (literal ratios, no envelope)
     pub envelope: bool,
+    /// C09 only: the instance is driven through `Box<dyn VecResampler>`
+    #[serde(default)]
+    pub via_vec: bool,
 }
 
 #[derive(Clone, Copy, PartialEq)]
@@ -36,7 +39,7 @@ pub fn hist_case_strategy(tier: Tier, budget: f64, malformed: bool) -> BoxedStra
             while call_cost(&cfg) * calls > budget && cfg.chunk > 1 {
                 cfg.chunk = (cfg.chunk / 2).max(1);
             }
-            HistCase { cfg, seed, ops, envelope: std::env::var("RV_NO_ENVELOPE").is_err() }
+            HistCase { cfg, seed, ops, envelope: std::env::var("RV_NO_ENVELOPE").is_err(), via_vec: malformed && seed % 4 == 0 }
         })
         .boxed()
 }
@@ -83,11 +86,17 @@ fn run_t<T: SampleX>(w: Which, c0: &HistCase) -> Outcome {
     for l in excl {
         o.class(l);
     }
+    let via_vec = c0.via_vec && w == Which::C09;
+    let mut cfg = cfg;
+    if via_vec {
+        cfg.kernel = crate::cfg::Kernel::Dispatch;
+        o.class("through Box<dyn VecResampler>");
+    }
     let c = &HistCase { cfg, ..c0.clone() };
     let opts = HistOpts { envelope: c.envelope, record_out: false, quant32: false, stop_on_err: true };
     let sig = Signal::Noise { seed: c.seed, amp: 1.0 };
     let t0 = std::time::Instant::now();
-    let tr = exec_history::<T>(&c.cfg, &sig, &c.ops, &opts);
+    let tr = crate::hist::exec_history_with::<T>(&c.cfg, &sig, &c.ops, &opts, via_vec);
     if std::env::var("RV_TIMING").is_ok() {
         o.count(&format!("us:{}", c.cfg.kind.name()), t0.elapsed().as_micros() as u64);
     }
